@@ -71,12 +71,49 @@ class Spec:
         self._sel = {}
 
     # ------------------------------------------------------------------ structure
+    @staticmethod
+    def _conjunct_syms(exprs):
+        """names X such that some condition is (an AND containing) X, X = y or X != n"""
+        out = set()
+
+        def rec(e):
+            if e is None:
+                return
+            if e[0] == "sym":
+                out.add(e[1])
+            elif e[0] == "and":
+                rec(e[1])
+                rec(e[2])
+            elif e[0] in ("=", "!=") and e[1][0] == "sym" and e[2][0] == "sym":
+                a, b = e[1][1], e[2][1]
+                if (e[0] == "=" and b == "y") or (e[0] == "!=" and b == "n"):
+                    out.add(a)
+                if (e[0] == "=" and a == "y") or (e[0] == "!=" and a == "n"):
+                    out.add(b)
+
+        for e in exprs:
+            rec(e)
+        return out
+
     def _walk(self, children, deps, vifs, choice):
+        chain = []  # inside a choice: the current member and the options implicitly nested below it
         for n in children:
             if isinstance(n, Cfg):
-                nd = Node(n, deps + [parse_expr(d) for d in n.depends], vifs, choice)
+                member_of = choice
+                if choice is not None:
+                    # language.rst / kconfiglib: an entry that depends on the preceding option becomes its child
+                    # (implicit submenu); such an entry inside a choice block is not a choice member
+                    own = [parse_expr(d) for d in n.depends] + ([parse_expr(n.prompt_if)] if n.prompt_if else [])
+                    if chain and (self._conjunct_syms(own) & set(chain)):
+                        member_of = None
+                        chain.append(n.name)
+                    else:
+                        chain = [n.name]
+                nd = Node(n, deps + [parse_expr(d) for d in n.depends], vifs, member_of)
+                if choice is not None and member_of is None:
+                    nd.deps = nd.deps + [("sym", choice)] if choice in self.choices and not choice.startswith("<anon") else nd.deps
                 self.nodes.setdefault(n.name, []).append(nd)
-                if choice is not None and n.name not in self.choices[choice].members:
+                if member_of is not None and n.name not in self.choices[choice].members:
                     self.choices[choice].members.append(n.name)
                 for t, c in n.selects:
                     self.selects.setdefault(t, []).append((nd, parse_expr(c)))
